@@ -150,6 +150,36 @@ def check_case(run, case):
                 run.violation(f'level {L}: a generator asked again after reporting exhaustion does not produce the level again ({len(rounds[1])} strings, the level has {len(base[L])})', case,
                               observed=rounds[1][:8], expected=base[L][:8]); return
             run.ev('generators_drained_twice')
+        # (f) a generation interrupted after j strings, saved with save_session() and continued by a generator that is built the way the guesser restores
+        # one (for level 1, then load_session()): the two parts together are the level, whatever level the restored object was first built for
+        sess = os.path.join(path, 'c10_session.omn')
+        for L in rng.sample(levels, min(5, len(levels))):
+            if not base[L]:
+                continue
+            for j in sorted({1, len(base[L]) // 2, len(base[L]) - 1, rng.randint(1, len(base[L]))} - {0}):
+                opt = CountingOptimizer(max_length=case['opt_len'])
+                mc = MarkovCracker(grammar, L, opt)
+                head = [mc.next_guess() for _ in range(j)]
+                mc2 = MarkovCracker(grammar, 1, opt if rng.random() < 0.5 else CountingOptimizer(max_length=case['opt_len']))
+                try:
+                    mc.save_session(sess)
+                    mc2.load_session(sess, {'pt': [['M', 0, 0]]})
+                except (TypeError, AttributeError, KeyError, IndexError) as e:
+                    # the save / restore interface is not the one this history was written against: not decided here (C15 drives it through main())
+                    run.inconc('MarkovCracker.save_session / load_session interface differs'); break
+                tail = []
+                for _i in range(len(base[L]) + 3):
+                    g = mc2.next_guess()
+                    if g is None:
+                        break
+                    tail.append(g)
+                if head + tail != base[L]:
+                    miss = list((Counter(base[L]) - Counter(head + tail)).elements())[:5]
+                    extra = list((Counter(head + tail) - Counter(base[L])).elements())[:5]
+                    run.violation(f'level {L}: generation saved after {j} of {len(base[L])} strings and continued by a restored generator gives {len(head) + len(tail)} strings '
+                                  f'({len(miss)}+ missing, {len(extra)}+ extra/repeated)', case, observed={'missing': miss, 'extra': extra, 'tail': tail[:6]}, expected=base[L][j:j + 6])
+                    return
+                run.ev('generations_saved_and_restored')
         run.ev('cache_hits', hits['n'])
         run.ev('models')
         nz = {L: len(v) for L, v in expected.items() if v}
@@ -159,7 +189,7 @@ def check_case(run, case):
         repo.drop_rules(name)
 
 def run(run, rng):
-    run.required_events = ['levels_generated', 'GUESS', 'cache_hits', 'interleaved_pairs']
+    run.required_events = ['levels_generated', 'GUESS', 'cache_hits', 'interleaved_pairs', 'generations_saved_and_restored']
     run.min_distinct = 20
     run.assumptions = ['well-formed models: each n-gram listed once, levels 0..10', 'models with more than 150000 strings up to the probed level are not decided',
                        'order of strings inside a level is not part of the property; equality across cache histories is checked on the exact sequence']
